@@ -111,7 +111,7 @@ package utils
 // for the next frame. (Assumed of the destination: it does not already share a
 // buffer with the source.)
 //@ func copyArgs
-//@   property C01
+//@   property C01 C20
 //@   requires?[destination-does-not-share-with-source] base(dst) != base(src) && (forall i int :: {dst[i]} 0 <= i && i < len(src) ==> (len(src[i].key) > 0 ==> base(dst[i].key) != base(src[i].key)) && (len(src[i].value) > 0 ==> base(dst[i].value) != base(src[i].value)))
 //@   requires?[source-buffers-allocated] forall i int :: {src[i]} 0 <= i && i < len(src) ==> (len(src[i].key) > 0 ==> base(src[i].key) > 0) && (len(src[i].value) > 0 ==> base(src[i].value) > 0)
 //@   modifies allof(type(argsKV)), allelems(type(byte))
@@ -120,6 +120,8 @@ package utils
 //@   ensures[source-values-unchanged] forall i int :: {src[i]} 0 <= i && i < len(src) ==> src[i].value == old(src[i].value)
 //@   ensures[own-key-buffers] forall i int :: {result[i]} 0 <= i && i < len(src) && len(src[i].key) > 0 ==> base(result[i].key) != base(src[i].key)
 //@   ensures[own-value-buffers] forall i int :: {result[i]} 0 <= i && i < len(src) && len(src[i].value) > 0 ==> base(result[i].value) != base(src[i].value)
+//@   ensures[every-pair-rewritten-to-source-length] @C01 @C20 forall i int :: {result[i]} 0 <= i && i < len(src) ==> len(result[i].key) == len(src[i].key) && len(result[i].value) == len(src[i].value)
+//@   loop 0: invariant[pairs-so-far-have-source-lengths] forall j int :: {dst[j]} 0 <= j && j < i ==> len(dst[j].key) == len(src[j].key) && len(dst[j].value) == len(src[j].value)
 //@   loop 0: invariant[bounds] 0 <= i && i <= n && n == len(src) && len(dst) == n
 //@   loop 0: invariant[lists-apart] base(dst) != base(src)
 //@   loop 0: invariant[no-pair-shares-a-key-buffer] forall j int :: {dst[j]} 0 <= j && j < n && len(src[j].key) > 0 ==> base(dst[j].key) != base(src[j].key)
